@@ -24,7 +24,12 @@ import (
 	"time"
 )
 
-const verifDir = "/verif"
+var verifDir = func() string {
+	if d := os.Getenv("VERIF_DIR"); d != "" {
+		return d
+	}
+	return "/verif"
+}()
 
 type buildSpec struct {
 	Name string
